@@ -21,4 +21,7 @@ RP == {<<"B1", [op_state |-> 2]>>, <<"B1", [op_state |-> 1]>>, <<"B1", [init_lim
 BP == {<<"A1", "B3">>, <<"A1", "B4">>}
 LiqR == {<<"A2", "A1", "B1", "B3">>}
 NoTuplesR == {}
+\* the "flat" instance (spot = time-weighted price, zero confidence): e-mode entry sets, the borrow boundary, then liquidation attempts
+ESF == {<<"B3", <<>>>>, <<"B3", <<<<5, 1, 10, 1, 10>>>>>>, <<"B3", <<<<5, 3, 8, 1, 2>>>>>>, <<"B3", <<<<5, 7, 10, 4, 5>>>>>>}
+BPF == {<<"A1", "B3">>}
 =============================================================================
